@@ -272,6 +272,98 @@ def h_trigger(who, state, trig):
     return ['trigger', 'queued' if trig in ('acquire', 'expire') else 'nothing']
 
 
+def h_init_retries(kind):
+    """IKE_SA_INIT with a COOKIE round, an INVALID_KE_PAYLOAD round or both, then IKE_AUTH and a liveness check: every IKE_SA_INIT request put on
+    the wire (first try, retries, a timer retransmission of each) has Message ID 0, the INITIATOR flag, the constant SPIi and a ZERO SPIr
+    (RFC 7296 3.1); the later requests carry consecutive IDs and both SPIs"""
+    from symx import core
+    eng = core.engine()
+    m, ik = MODS['message'], MODS['ikesa']
+    S = ik.IkeSa.State
+    kw = {}
+    if kind in ('invalid_ke', 'both'):
+        kw = dict(dh_ike=('ecp256', 'ecp384'), dh_ike_b=('ecp384', 'ecp256'))
+    p = world.Pair(**kw)
+    if kind in ('cookie', 'both'):
+        p.b.cookie_secret = b'secret!!'
+    sent = []
+    d = p.init_req()
+    to = 'B'
+    for _ in range(12):
+        if to == 'B':
+            sent.append(bytes(d))
+            if p.a.state == S.INIT_REQ_SENT:
+                # the timer retransmits this very request once more before the answer arrives
+                t0 = world.ENV.now
+                world.ENV.now = p.a.retransmit_at + 1
+                r = p.A.call(p.a.check_retransmission_timer)
+                world.ENV.now = t0
+                if r is not None:
+                    sent.append(bytes(r))
+        d = p.send(to, d)
+        if d is None:
+            break
+        if p.b.state == S.DELETED and to == 'B':
+            secret = p.b.cookie_secret
+            p.b = ik.IkeSa(is_initiator=False, peer_spi=p.a.my_spi, my_addr=world.IP2, peer_addr=world.IP1, configuration=p.b.configuration, cookie_secret=secret)
+            p.B.obj = p.b
+        to = 'A' if to == 'B' else 'B'
+    if p.a.state != S.ESTABLISHED:
+        return {'class': ['init_retries'], 'violation': f'{kind}: the handshake did not complete ({p.a.state.name})'}
+    world.ENV.now = p.a.start_dpd_at + 3600
+    sent.append(bytes(p.A.call(p.a.check_dead_peer_detection_timer)))
+    inits = [x for x in sent if x[18] == 34]
+    later = [x for x in sent if x[18] != 34]
+    if len(inits) < {'plain': 2, 'cookie': 4, 'invalid_ke': 4, 'both': 6}[kind]:
+        return {'class': ['init_retries'], 'violation': f'{kind}: only {len(inits)} IKE_SA_INIT requests seen'}
+    for i, x in enumerate(inits):
+        if x[0:8] != bytes(p.a.my_spi) or x[8:16] != bytes(8) or x[19] != 0x08 or x[20:24] != bytes(4) or x[17] != 0x20:
+            return {'class': ['init_retries'], 'violation': f'{kind}: IKE_SA_INIT request number {i + 1} on the wire has SPIi {x[0:8].hex()}, SPIr {x[8:16].hex()}, flags '
+                                                            f'{x[19]:#x}, Message ID {int.from_bytes(x[20:24], "big")} (expected the constant SPIi, a zero SPIr, flags 0x08, ID 0)'}
+    for want_id, x in zip((1, 2), later):
+        if x[0:8] != bytes(p.a.my_spi) or x[8:16] != bytes(p.b.my_spi) or int.from_bytes(x[20:24], 'big') != want_id or x[19] != 0x08:
+            return {'class': ['init_retries'], 'violation': f'{kind}: request after IKE_SA_INIT has SPIs {x[0:16].hex()}, flags {x[19]:#x}, ID {int.from_bytes(x[20:24], "big")}'}
+    return ['init_retries', kind, len(inits)]
+
+
+def h_rekey_roles(who):
+    """IKE_SA rekey started by `who` ('A' = original initiator, 'B' = original responder): on the NEW IKE_SA the endpoint that started the rekey is
+    the initiator - INITIATOR flag, SPIi = its new SPI - whatever the roles on the old one were; checked on the first requests both ends send"""
+    from symx import core
+    eng = core.engine()
+    m, ik = MODS['message'], MODS['ikesa']
+    S = ik.IkeSa.State
+    p = world.Pair()
+    p.establish()
+    ini, IE, res, RE = (p.a, p.A, p.b, p.B) if who == 'A' else (p.b, p.B, p.a, p.A)
+    world.ENV.now = ini.rekey_ike_sa_at + 10
+    d = IE.call(ini.check_rekey_ike_sa_timer)
+    to, other = (res, RE), (ini, IE)
+    for _ in range(6):
+        if d is None:
+            break
+        d = to[1].call(to[0].process_message, d)
+        to, other = other, to
+    ni, nr = ini.new_ike_sa, res.new_ike_sa
+    if ni is None or nr is None or ni.state != S.ESTABLISHED or nr.state != S.ESTABLISHED:
+        return {'class': ['rekey_roles'], 'violation': 'rekey did not complete'}
+    for sa, E, is_rekey_initiator, label in ((ni, IE, True, 'the endpoint that started the rekey'), (nr, RE, False, 'the endpoint that answered the rekey')):
+        world.ENV.now = sa.start_dpd_at + 3600
+        x = bytes(E.call(sa.check_dead_peer_detection_timer))
+        want_flags = 0x08 if is_rekey_initiator else 0x00
+        if x[0:8] != bytes(ni.my_spi) or x[8:16] != bytes(nr.my_spi) or x[19] != want_flags or x[20:24] != bytes(4):
+            return {'class': ['rekey_roles'], 'violation': f'rekey started by {who}: the first request of {label} on the new IKE_SA has SPIi/SPIr {x[0:8].hex()}/{x[8:16].hex()}, '
+                                                           f'flags {x[19]:#x}, ID {int.from_bytes(x[20:24], "big")}; expected {bytes(ni.my_spi).hex()}/{bytes(nr.my_spi).hex()}, '
+                                                           f'flags {want_flags:#x}, ID 0'}
+        # the answer
+        peer, PE = (nr, RE) if sa is ni else (ni, IE)
+        y = bytes(PE.call(peer.process_message, x))
+        E.call(sa.process_message, y)
+        if y[19] != ((0x08 if not is_rekey_initiator else 0) | 0x20) or y[0:16] != x[0:16]:
+            return {'class': ['rekey_roles'], 'violation': f'rekey started by {who}: the response to the first request of {label} has flags {y[19]:#x} / SPIs {y[0:16].hex()}'}
+    return ['rekey_roles', who]
+
+
 KINDS = ('response', 'dpd', 'del_child', 'rekey_child', 'new_child', 'rekey_ike', 'del_ike')
 
 
@@ -292,6 +384,11 @@ def build_instances(tier):
                                      native=nat(h_window),
                                      must_reach=[('a handler ran', lambda o: o[:2] == ['step', 'ran']),
                                                  ('silent drop', lambda o: o == ['step', 'idle', 'silent'])]))
+    for kind in ('plain', 'cookie', 'invalid_ke', 'both'):
+        inst.append(Instance(f'IKE_SA_INIT tries: {kind}', h_init_retries, (kind,), native=nat(h_init_retries), must_reach=[('ok', lambda o: o[0] == 'init_retries')]))
+    for who in ('A', 'B'):
+        inst.append(Instance(f'roles on the IKE_SA created by a rekey started by {who}', h_rekey_roles, (who,), native=nat(h_rekey_roles),
+                             must_reach=[('ok', lambda o: o[0] == 'rekey_roles')]))
     for who in ('A', 'B'):
         for kind in ('rekey_again', 'rekey_delete'):
             inst.append(Instance(f'window {who} REKEYED <- {kind}', h_window, (who, 'REKEYED', kind, False), native=nat(h_window),
